@@ -336,6 +336,17 @@ class FnAnalysis(Analysis):
     def leq(self, a, b):
         return a == b
 
+    def widen(self, old, new):
+        """numeric bounds that still change after a few rounds of a loop are dropped (termination of the fixpoint iteration)"""
+        env = {}
+        for k, v in new.env.items():
+            o = old.env.get(k)
+            if o is not None and o != v:
+                v = v.but(iub=v.iub if v.iub == o.iub else None, ilb=v.ilb if v.ilb == o.ilb else None,
+                          lb=v.lb if v.lb == o.lb else 0, exact=v.exact if v.exact == o.exact else None)
+            env[k] = v
+        return St(env, new.ctl, new.members, new.lenge)
+
     def handler_types(self, h):
         return self.prog.handler_names(self.m, h, self.fn.cls)
 
@@ -977,6 +988,8 @@ class FnAnalysis(Analysis):
                 return self.slice_val(base, ast.Slice(lower=mk(fs.start), upper=mk(fs.stop), step=mk(fs.step)), st, self.key_of(e.value))
         idx = self.val(e.slice, st)
         k = self.cint(e.slice)
+        if idx.kind == "slice" and not idx.taint:
+            return Val(taint=base.taint, kind=base.kind if base.kind in ("bytes", "list", "str") else "any")      # x[slice_object]: never an IndexError
         if base.kind in ("bytes", "list", "str", "any", "strlist") or base.taint:
             if base.taint and k is not None:
                 need = k + 1 if k >= 0 else -k
@@ -1545,6 +1558,8 @@ class FnAnalysis(Analysis):
                     vv = self.val(k.value, st)
                     elem = vv if elem is None else join_val(elem, vv)
                 return Val(False, "map", elem=elem)
+            if name == "slice" and not any(v.taint for v in argv):
+                return Val(False, "slice")          # a slice object with bounds the peer does not choose: indexing with it is slicing
             if name == "len":
                 return Val(a0.taint, "int", ilb=a0.lb, len_of=self.key_of(e.args[0]) if e.args else None)
             if name in ("bytes", "bytearray") and argv and a0.kind == "list" and a0.elem is not None:
